@@ -119,12 +119,18 @@ Proof.
     + rewrite Ea. split; rewrite ?app_length; cbn [length]; intros; lia.
 Qed.
 
+Lemma s_measure_ignored c a v st : ignores (s_kind c) v = true -> s_measure c a v st = st.
+Proof. unfold s_measure. now intros ->. Qed.
+
+Lemma s_measure_live c a v st : ignores (s_kind c) v = false -> s_measure c a v st = s_record c a v st.
+Proof. unfold s_measure. now intros ->. Qed.
+
 Lemma s_measure_keys c a v st :
-  map fst (st_vals (s_measure c a v st)) =
+  map fst (st_vals (s_record c a v st)) =
   let K := map fst (st_vals st) in
   let k := limiter (s_limit c) (set_filter (s_filter c) a) K in
   if amem k K then K else K ++ [k].
-Proof. unfold s_measure. cbn [st_vals]. now rewrite upsert_keys. Qed.
+Proof. unfold s_record. cbn [st_vals]. now rewrite upsert_keys. Qed.
 
 Lemma s_collect_out_keys c st : map fst (fst (s_collect c st)) = map fst (st_vals st).
 Proof.
@@ -142,7 +148,9 @@ Lemma s_run_at_most c : 1 <= s_limit c -> forall h st,
 Proof.
   intros HL h. induction h as [|e h IH]; intros st I; cbn [s_run]; [constructor|].
   destruct e as [a v|].
-  - apply IH. rewrite s_measure_keys. cbn zeta. now apply limiter_keys_inv.
+  - destruct (ignores (s_kind c) v) eqn:IG; [rewrite (s_measure_ignored _ _ _ _ IG); now apply IH|].
+    rewrite (s_measure_live _ _ _ _ IG).
+    apply IH. rewrite s_measure_keys. cbn zeta. now apply limiter_keys_inv.
   - destruct (s_collect c st) as [out st'] eqn:E.
     assert (Ho : map fst out = map fst (st_vals st)) by (rewrite <- (s_collect_out_keys c st), E; reflexivity).
     assert (Hn : map fst (st_vals st') = if resets c then [] else map fst (st_vals st))
@@ -196,11 +204,13 @@ Qed.
 Lemma s_run_sum_conserved c :
   sums_values (s_kind c) = true -> is_presum_delta c = false ->
   forall h st cur, total (st_vals st) = zsum (map snd cur) ->
-  Forall2 (fun pts w => sum_conserved w pts) (s_run c h st) (windows_from (resets c) cur h).
+  Forall2 (fun pts w => sum_conserved w pts) (s_run c h st) (windows_from (resets c) (ignores (s_kind c)) cur h).
 Proof.
   intros Hs Hp h. induction h as [|e h IH]; intros st cur T; cbn [s_run windows_from]; [constructor|].
   destruct e as [a v|].
-  - apply IH. unfold s_measure. cbn [st_vals].
+  - destruct (ignores (s_kind c) v) eqn:IG; [rewrite (s_measure_ignored _ _ _ _ IG); now apply IH|].
+    rewrite (s_measure_live _ _ _ _ IG).
+    apply IH. unfold s_record. cbn [st_vals].
     rewrite (total_upsert _ _ _ v) by (intro; now apply step_sum).
     rewrite map_app, zsum_app, T. cbn. lia.
   - unfold s_collect. rewrite Hp. constructor; [exact T|].
@@ -210,13 +220,15 @@ Qed.
 Lemma s_run_count_conserved c :
   counts_values (s_kind c) = true ->
   forall h st cur, total_count (st_vals st) = N.of_nat (length cur) ->
-  Forall2 (fun pts w => count_conserved w pts) (s_run c h st) (windows_from (resets c) cur h).
+  Forall2 (fun pts w => count_conserved w pts) (s_run c h st) (windows_from (resets c) (ignores (s_kind c)) cur h).
 Proof.
   intros Hs h.
   assert (Hp : is_presum_delta c = false) by (unfold is_presum_delta; destruct (s_kind c); try discriminate; reflexivity).
   induction h as [|e h IH]; intros st cur T; cbn [s_run windows_from]; [constructor|].
   destruct e as [a v|].
-  - apply IH. unfold s_measure. cbn [st_vals].
+  - destruct (ignores (s_kind c) v) eqn:IG; [rewrite (s_measure_ignored _ _ _ _ IG); now apply IH|].
+    rewrite (s_measure_live _ _ _ _ IG).
+    apply IH. unfold s_record. cbn [st_vals].
     rewrite total_count_upsert by (intro; now apply step_count).
     rewrite app_length, T. cbn [length]. lia.
   - unfold s_collect. rewrite Hp. constructor; [exact T|].
@@ -468,9 +480,9 @@ Qed.
 
 Lemma grouped_step c w vals a v :
   grouped c w vals ->
-  grouped c (w ++ [(a, v)]) (st_vals (s_measure c a v {| st_vals := vals; st_rep := [] |})).
+  grouped c (w ++ [(a, v)]) (st_vals (s_record c a v {| st_vals := vals; st_rep := [] |})).
 Proof.
-  intros G. unfold s_measure. cbn [st_vals].
+  intros G. unfold s_record. cbn [st_vals].
   rewrite set_filter_restrict, (limiter_is_dest c w vals _ G).
   set (key := dest (s_limit c) (map fst (filtered c w) ++ [restrict (s_filter c) a]) (restrict (s_filter c) a)).
   split; [apply upsert_nodup, G|].
@@ -486,17 +498,19 @@ Proof.
 Qed.
 
 Lemma s_measure_vals c a v st :
-  st_vals (s_measure c a v st) = st_vals (s_measure c a v {| st_vals := st_vals st; st_rep := [] |}).
+  st_vals (s_record c a v st) = st_vals (s_record c a v {| st_vals := st_vals st; st_rep := [] |}).
 Proof. reflexivity. Qed.
 
 Lemma s_run_placed c :
   is_presum_delta c = false ->
   forall h st cur, grouped c cur (st_vals st) ->
-  Forall2 (fun pts w => placed c w pts) (s_run c h st) (windows_from (resets c) cur h).
+  Forall2 (fun pts w => placed c w pts) (s_run c h st) (windows_from (resets c) (ignores (s_kind c)) cur h).
 Proof.
   intros Hp h. induction h as [|e h IH]; intros st cur G; cbn [s_run windows_from]; [constructor|].
   destruct e as [a v|].
-  - apply IH. rewrite s_measure_vals. now apply grouped_step.
+  - destruct (ignores (s_kind c) v) eqn:IG; [rewrite (s_measure_ignored _ _ _ _ IG); now apply IH|].
+    rewrite (s_measure_live _ _ _ _ IG).
+    apply IH. rewrite s_measure_vals. now apply grouped_step.
   - unfold s_collect. rewrite Hp. constructor; [exact G|].
     apply IH. cbn [st_vals]. destruct (resets c); [apply grouped_nil | exact G].
 Qed.
@@ -1079,16 +1093,17 @@ Lemma presum_seq_ok c : is_presum_delta c = true -> s_limit c = 0 ->
     NoDup (map fst (st_rep st)) ->
     (forall k, In k (map fst (st_rep st)) -> In k (sets_of c prev)) ->
     zsum (map snd (st_rep st)) = zsum (map snd prev) ->
-    presum_conserved_seq c prev (windows_from true cur h) (s_run c h st) = true.
+    presum_conserved_seq c prev (windows_from true (ignores (s_kind c)) cur h) (s_run c h st) = true.
 Proof.
   intros Hp L0 h.
   assert (Hs : sums_values (s_kind c) = true) by (unfold is_presum_delta in Hp; destruct (s_kind c); try discriminate; reflexivity).
   assert (Hr : resets c = true) by (unfold is_presum_delta in Hp; unfold resets; destruct (s_kind c); try discriminate; reflexivity).
   induction h as [|e h IH]; intros st cur prev G T NR KR ZR; cbn [windows_from s_run presum_conserved_seq]; [reflexivity|].
+  assert (NI : forall v, ignores (s_kind c) v = false) by (intro v; unfold is_presum_delta in Hp; destruct (s_kind c); try discriminate; reflexivity).
   destruct e as [a v|].
-  - apply IH; auto.
+  - rewrite (NI v), (s_measure_live _ _ _ _ (NI v)). apply IH; auto.
     + rewrite s_measure_vals. now apply grouped_step.
-    + unfold s_measure. cbn [st_vals]. rewrite (total_upsert _ _ _ v) by (intro; now apply step_sum).
+    + unfold s_record. cbn [st_vals]. rewrite (total_upsert _ _ _ v) by (intro; now apply step_sum).
       rewrite map_app, zsum_app, T. cbn. lia.
   - unfold s_collect. rewrite Hp, Hr. cbn [presum_conserved_seq]. apply andb_true_iff. split.
     + destruct (forallb (fun a => amem a (sets_of c cur)) (sets_of c prev)) eqn:Sub; [|reflexivity]. cbn [negb orb].
